@@ -244,7 +244,7 @@ class C07(Prop):
         except Exception as e:
             res.excluded = "cannot-build:" + impl.tname(e)
             return res
-        instances = copy.deepcopy(case["instances"])
+        instances = copy.deepcopy(GW.instances_of(case))
         snap_inst = impl.cj(instances)
         snap_schema = impl.cj(v.schema)
         snap_store = dict((u, impl.cj(v.resolver.store[u])) for u in case["docs"] if case["via"][u] in ("store", "store#"))
@@ -280,7 +280,7 @@ class C07(Prop):
                 interesting = True
             # fresh validator, same world, handler in its current state, only this operation
             fresh = GW.build_validator(case, handler=GW.Handler(case, down=set(handler.down)))
-            want = perform(fresh, step, copy.deepcopy(case["instances"]))
+            want = perform(fresh, step, copy.deepcopy(GW.instances_of(case)))
             if got != want:
                 res.fail(("history-dependent-result", step[0]),
                          "step %d %r after %r:\n reused validator: %r\n fresh validator:  %r" % (
